@@ -197,6 +197,25 @@ func scratchDir(c map[string]any, prefix string) (top, dir string, err error) {
 	return top, dir, nil
 }
 
+// symDirs makes the given directories below root (relative, in order) symbolic links to fresh real directories kept
+// elsewhere below top ("models on another volume")
+func symDirs(cwd, top, root string, c map[string]any) error {
+	for i, rel := range hx.UnhexList(c["symdirs"]) {
+		target := filepath.Join(cwd, top, fmt.Sprintf("vol%d", i))
+		if err := os.MkdirAll(target, 0o777); err != nil {
+			return err
+		}
+		p := root + "/" + rel
+		if err := os.MkdirAll(filepath.Dir(p), 0o777); err != nil {
+			return err
+		}
+		if err := os.Symlink(target, p); err != nil {
+			return err
+		}
+	}
+	return nil
+}
+
 func main() {
 	cwd, _ := os.Getwd()
 	// envconfig.Models() falls back to $HOME/.ollama/models for an empty OLLAMA_MODELS and GetBlobsPath creates
@@ -329,6 +348,9 @@ func main() {
 			if b, _ := c["absdir"].(bool); b {
 				dir = cwd + string(filepath.Separator) + dir
 			}
+			if err := symDirs(cwd, top, dir, c); err != nil {
+				return map[string]any{"harness_error": err.Error()}
+			}
 			for _, f := range hx.UnhexList(c["files"]) {
 				p := filepath.Join(dir, f)
 				if err := os.MkdirAll(filepath.Dir(p), 0o777); err != nil {
@@ -364,6 +386,9 @@ func main() {
 			defer os.RemoveAll(top)
 			abs := cwd + string(filepath.Separator) + dir
 			os.Setenv("OLLAMA_MODELS", abs)
+			if err := symDirs(cwd, top, abs, c); err != nil {
+				return map[string]any{"harness_error": err.Error()}
+			}
 			for _, x := range c["stored"].([]any) {
 				q := hx.UnhexList(x)
 				p := filepath.Join(abs, "manifests", q[0], q[1], q[2], q[3])
@@ -414,6 +439,9 @@ func main() {
 			if b, _ := c["absdir"].(bool); b {
 				dir = cwd + string(filepath.Separator) + dir
 			}
+			if err := symDirs(cwd, top, dir, c); err != nil {
+				return map[string]any{"harness_error": err.Error()}
+			}
 			var ops []server.VerifC13HOp
 			for _, x := range c["ops"].([]any) {
 				m := x.(map[string]any)
@@ -446,6 +474,9 @@ func main() {
 			defer os.RemoveAll(top)
 			root := cwd + string(filepath.Separator) + dir
 			os.Setenv("OLLAMA_MODELS", root)
+			if err := symDirs(cwd, top, root, c); err != nil {
+				return map[string]any{"harness_error": err.Error()}
+			}
 			for _, x := range c["seed"].([]any) {
 				m := x.(map[string]any)
 				if err := seedModel(root, hx.UnhexList(m["parts"]), hx.Int(m["id"])); err != nil {
@@ -470,6 +501,22 @@ func main() {
 						fmt.Sscanf(r.System, "S%d", &id)
 						o["id"] = id
 					}
+				case "list":
+					code, body = doJSON("GET", "/api/tags", nil)
+					var r struct {
+						Models []struct {
+							Name string `json:"name"`
+						} `json:"models"`
+					}
+					if code == 200 && json.Unmarshal([]byte(body), &r) == nil {
+						o["id"] = len(r.Models)
+						var names []string
+						for _, m := range r.Models {
+							names = append(names, m.Name)
+						}
+						o["names"] = hx.HexList(names)
+					}
+					body = ""
 				case "delete":
 					code, body = doJSON("DELETE", "/api/delete", map[string]any{"model": hx.Unhex(m["name"])})
 				case "copy":
